@@ -31,7 +31,8 @@ func runC19(c *Ctx) {
 		isConn := oneOf(conn)
 		w := find(fn, callTo(fhs("WriteHeaders")))
 		c.guarded(fn, errNil("store.WriteHeaders", w, 0), 1, "onBlockConnected", conn, 1, gDominate)
-		c.mustPrecede(fn, storeToField(bm("filterHeaderTip")), "filterHeaderTip = lastHeight", isConn, "onBlockConnected", 1)
+		_ = isConn
+		c.tipBeforeEvents()
 		anc := bhs("FetchHeaderAncestors")
 		okv := len(conn) == 1
 		for _, em := range emits {
@@ -307,6 +308,8 @@ func runC19(c *Ctx) {
 		c.fanOutAll()
 	})
 
+	c.rule("C19.V2", "the block manager is never more than one event ahead of the subscription manager: blockNtfnChan is made without capacity (a new subscriber's backlog is computed from the stores at registration time; events still queued from before that moment, e.g. of a branch that has since been rolled back, would be replayed on top of it)", func() { c.ntfnRendezvous() })
+
 	c.rule("C19.V1", backlogBoundDoc, func() { c.backlogBound() })
 }
 
@@ -450,4 +453,43 @@ func oneOf(ins []ssa.Instruction) Sel {
 		}
 		return false
 	}
+}
+
+// ntfnRendezvous: blockManager.blockNtfnChan is unbuffered.
+func (c *Ctx) ntfnRendezvous() {
+	ch := c.field("neutrino", "blockManager", "blockNtfnChan")
+	n, okv := 0, true
+	var sites []string
+	for _, fn := range c.P.Funcs {
+		ir.Instrs(fn, func(in ssa.Instruction) {
+			st, ok := in.(*ssa.Store)
+			if !ok {
+				return
+			}
+			fa, ok := st.Addr.(*ssa.FieldAddr)
+			if !ok || ir.FieldOfAddr(fa) != ch {
+				return
+			}
+			n++
+			sites = append(sites, c.at(in))
+			mk, isMk := ir.Strip(st.Val).(*ssa.MakeChan)
+			if !isMk {
+				okv = false
+				return
+			}
+			if k, isC := ir.ConstInt(mk.Size); !isC || k != 0 {
+				okv = false
+			}
+		})
+	}
+	c.verdict(okv && n >= 1, "neutrino.blockManager.blockNtfnChan | made without capacity", "", fmt.Sprintf("%d allocation(s), all unbuffered", n), "blockManager.blockNtfnChan is (or may be) a buffered channel: events can queue up behind the subscription manager while the chain moves on", sites...)
+}
+
+const tipBeforeEventsDoc = "the in-memory filter header tip (the bound of a new subscriber's backlog) is published before the Connected events of a batch are emitted: a subscriber registered between two events of the batch gets the whole batch in its backlog and loses nothing"
+
+// tipBeforeEvents: see tipBeforeEventsDoc (part of C19.O1, and C11.O3).
+func (c *Ctx) tipBeforeEvents() {
+	fn := c.fn(fnWriteCFH)
+	conn := emitIns(c.emitSites(fn, "onBlockConnected", "NewBlockConnected"))
+	c.mustPrecede(fn, storeToField(c.field("neutrino", "blockManager", "filterHeaderTip")), "filterHeaderTip = lastHeight", oneOf(conn), "onBlockConnected", 1)
 }
